@@ -361,7 +361,8 @@ def _exact_mode(prog, gold, step, s, d, row):
         B.K = 14
         try:
             I2 = inputs.make_interp(prog, fuel=20000000)
-            I2.budget_s = 60
+            import os
+            I2.budget_s = 2 * int(os.environ.get('VF_CALL_BUDGET_S', '90'))
             gsv = inputs.play_state(prog, gold, step, trapped='sym')
             r = take(I2, prog, gsv, move_action(prog, s, d))
             h = fld(prog, 'engine::GameState', r, 'hash').fields[0]
